@@ -2,6 +2,7 @@ package main
 
 import (
 	"fmt"
+	"os"
 	"strconv"
 	"strings"
 
@@ -132,6 +133,14 @@ func retainedCells(col *Collector, r *RNG, tier string, gen func(*RNG, string) [
 					}
 				}
 			}
+		}
+		if os.Getenv("VERIF_DEBUG") != "" {
+			fmt.Fprintf(os.Stderr, "retained run class=%s items=%d first=%s\n", types[k%len(types)], len(items), func() string {
+				if len(items) > 0 {
+					return clip(items[0].line, 60)
+				}
+				return ""
+			}())
 		}
 		kept := make([][]byte, len(items))
 		good := true
